@@ -27,17 +27,6 @@ theorem empty_roomFn (f : Nat → Nat) : RoomFn f Replica.empty := by
   · intro n hn; cases hn
   · intro t ht; cases ht
 
-theorem mem_dedupById {x : NTomb} {l : List NTomb} (h : x ∈ dedupById l) : x ∈ l := by
-  induction l with
-  | nil => cases h
-  | cons a t ih =>
-    simp only [dedupById] at h
-    split at h
-    · exact List.mem_cons_of_mem _ (ih h)
-    · rcases List.mem_cons.mp h with e | e
-      · rw [e]; exact List.mem_cons_self
-      · exact List.mem_cons_of_mem _ (ih e)
-
 theorem mem_replaceNode' {n x : Node} {l : List Node} (h : x ∈ replaceNode n l) : x = n ∨ x ∈ l := by
   unfold replaceNode at h
   obtain ⟨y, hy, e⟩ := List.mem_map.mp h
@@ -60,28 +49,16 @@ variable {f : Nat → Nat}
 
 theorem applyNTombs_roomFn (d : Defects) (rights : Rights) {dst : Replica} (h : RoomFn f dst) (ts : List NTomb)
     (hts : ∀ t ∈ ts, t.room = f t.id) : RoomFn f (applyNTombs d rights dst ts) := by
-  unfold applyNTombs
-  have hsub : ∀ t ∈ validNTombs rights dst (if d.deletionBatchKeyedById then dedupById ts else ts), t.room = f t.id := by
-    intro t ht
-    unfold validNTombs at ht
-    have ht' := (List.mem_filter.mp ht).1
-    split at ht'
-    · exact hts t (mem_dedupById ht')
-    · exact hts t ht'
-  generalize validNTombs rights dst (if d.deletionBatchKeyedById then dedupById ts else ts) = vs at hsub
-  induction vs generalizing dst with
-  | nil => exact h
-  | cons t rest ih =>
-    simp only [List.foldl_cons]
-    apply ih _ (fun u hu => hsub u (List.mem_cons_of_mem _ hu))
-    unfold applyNTomb
-    refine ⟨?_, ?_⟩
-    · intro n hn
-      exact h.1 n (List.mem_filter.mp hn).1
-    · intro u hu
-      rcases mem_putNTomb hu with e | e
-      · rw [e]; exact hsub t List.mem_cons_self
-      · exact h.2 u e
+  refine applyNTombs_induct d rights ts (RoomFn f) dst h ?_
+  intro r t ht hr
+  unfold applyNTomb
+  refine ⟨?_, ?_⟩
+  · intro n hn
+    exact hr.1 n (List.mem_filter.mp hn).1
+  · intro u hu
+    rcases mem_putNTomb hu with e | e
+    · rw [e]; exact hts t ht
+    · exact hr.2 u e
 
 theorem ingestNode_roomFn (d : Defects) (rights : Rights) {r : Replica} (h : RoomFn f r) (n : Node)
     (old : Option Node) (hn : n.room = f n.id) : RoomFn f (ingestNode d rights r n old) := by
